@@ -185,6 +185,85 @@ impl FrequencySketch {
     }
 }
 
+// Verification hooks.
+#[cfg(mini_moka_verif)]
+impl FrequencySketch {
+    pub(crate) fn verif_table(&self) -> Vec<u64> {
+        self.table.to_vec()
+    }
+
+    pub(crate) fn verif_clone(&self) -> Self {
+        Self {
+            sample_size: self.sample_size,
+            table_mask: self.table_mask,
+            table: self.table.clone(),
+            size: self.size,
+        }
+    }
+}
+
+/// A facade over the real `FrequencySketch`, for driving it from a harness.
+#[cfg(mini_moka_verif)]
+#[derive(Default)]
+pub struct VerifSketch(pub(crate) FrequencySketch);
+
+#[cfg(mini_moka_verif)]
+impl VerifSketch {
+    pub fn new() -> Self {
+        Self::default()
+    }
+
+    /// The capacity the caches would ask for, for a cache of the given capacity.
+    pub fn sketch_capacity(cache_capacity: u64) -> u32 {
+        crate::common::sketch_capacity(cache_capacity)
+    }
+
+    pub fn ensure_capacity(&mut self, cap: u32) {
+        self.0.ensure_capacity(cap)
+    }
+
+    pub fn increment(&mut self, hash: u64) {
+        self.0.increment(hash)
+    }
+
+    pub fn frequency(&self, hash: u64) -> u8 {
+        self.0.frequency(hash)
+    }
+
+    pub fn table(&self) -> Vec<u64> {
+        self.0.verif_table()
+    }
+
+    pub fn table_len(&self) -> usize {
+        self.0.table.len()
+    }
+
+    pub fn size(&self) -> u32 {
+        self.0.size
+    }
+
+    pub fn sample_size(&self) -> u32 {
+        self.0.sample_size
+    }
+
+    /// The four counters of a hash: (table index, counter index within the word).
+    pub fn slots(&self, hash: u64) -> [(usize, u8); 4] {
+        let start = ((hash & 3) << 2) as u8;
+        let mut slots = [(0usize, 0u8); 4];
+        if self.0.table.is_empty() {
+            return slots;
+        }
+        for i in 0..4u8 {
+            slots[i as usize] = (self.0.index_of(hash, i), start + i);
+        }
+        slots
+    }
+
+    pub fn deep_clone(&self) -> Self {
+        Self(self.0.verif_clone())
+    }
+}
+
 // Methods only available for testing.
 #[cfg(test)]
 impl FrequencySketch {
